@@ -3,3 +3,4 @@ pub mod util;
 pub mod paych;
 pub mod multisig;
 pub mod minerctl;
+pub mod market;
